@@ -61,6 +61,7 @@ type world struct {
 	started int // enqueuer goroutines started and not yet finished
 	fin     chan struct{}
 	relGate map[chan struct{}]bool
+	stuck   bool // the queue's mutex no longer answers: its goroutines cannot be collected
 }
 
 func kvI(w []string, k string) (int64, bool) {
@@ -86,9 +87,29 @@ func newWorld(quota, win, size, t0 int64) *world {
 	return w
 }
 
+// countsWithin calls q.Counts() with a bound: a queue whose mutex is stuck yields ok=false instead of
+// hanging the harness.
+func countsWithin(q *queue.DelayedPriorityQueue, bound time.Duration) (map[float64]int64, bool) {
+	ch := make(chan map[float64]int64, 1)
+	go func() { ch <- q.Counts() }()
+	select {
+	case m := <-ch:
+		return m, true
+	case <-time.After(bound):
+		return nil, false
+	}
+}
+
 func (w *world) obs() string {
+	if w.stuck {
+		return " queue-stuck"
+	}
+	m, ok := countsWithin(w.q, 3*time.Second)
+	if !ok {
+		w.stuck = true
+		return " queue-stuck"
+	}
 	tte := int64(w.q.GetTimeTillWindowEnd())
-	m := w.q.Counts()
 	var ps []float64
 	for p, n := range m {
 		if n != 0 {
@@ -331,6 +352,10 @@ func (w *world) shutdown() {
 	w.c.mu.Unlock()
 	w.g.openAll(w.relGate)
 	w.c.fireAll()
+	if w.stuck {
+		verifhook.Install(nil)
+		return
+	}
 	// the roll-over goroutine ends at its next After(); gap enqueuers end at their After(ttl)
 	deadline := time.After(settleTimeout)
 	select {
@@ -389,6 +414,10 @@ func exec(c proto.Case, o *proto.Out) []string {
 			continue
 		}
 		a := "bad-op"
+		if w.stuck {
+			outs[i] = "queue-stuck"
+			continue
+		}
 		switch f[0] {
 		case "tick":
 			if d, ok := kvI(f, "d"); ok {
